@@ -21,9 +21,13 @@
                                 (any non-terminal, any cost index, any fuel);
     * C02_Beap_heapify_perm, C02_Beap_heappush_mem, C02_Beap_heappop_mem — the heapq port keeps the multiset.
   NO DUPLICATES rests on the frontier rule of the successor loop ("increment position i until the
-  first position whose new index is > 1"): C02_Beap_frontier_* (PS/Proofs/Enum/BeapFrontier.lean)
-  proves that the combinations pushed from `c` are exactly the `t` whose first non-zero coordinate `i`
-  satisfies `t = c + e_i`, so every combination has exactly one producer.
+  first position whose new index is > 1"), proved here as pure combinatorics and linked to the model:
+    * C02_Beap_frontier_iff, C02_Beap_frontier_unique_producer, C02_Beap_frontier_producer_exists,
+      C02_Beap_frontier_nodup — the combinations pushed from `c` are exactly the `t = c + e_i` with `i` the first
+      non-zero coordinate of `t`: every combination has exactly one producer (the bijection lemma) and every
+      non-zero combination of the box is produced from a combination of smaller weight;
+    * C02_Beap_frontier_model — the model's successor loop pushes exactly these combinations.
+  COST SOUNDNESS ("stored under its true cost index") is in the C03 part file (C03_Beap_bank_cost).
   Completeness / termination on finite grammars: compared on every generated case (exact
   correspondence of yielded sequence and tables, independent language oracle), not proved.
 -/
